@@ -571,6 +571,16 @@ def named_maps(env):
     ps = {n: p for n, p in env.root.named_parameters(remove_duplicate=False)}
     bs = {n: b for n, b in env.root.named_buffers(remove_duplicate=False)}
     vals = {n: val_of(t) for n, t in list(ps.items()) + list(bs.items())}
+    # content of tensors a block parked in module.__dict__ (a Parameter slot given a plain tensor): in-place writes of an
+    # inner block go there; they are part of "the swap is undone" for that inner block
+    T = _imports()
+    for mid in env.order:
+        mod = env.mods[mid]
+        if isinstance(mod, T["TensorDictParams"]):
+            continue
+        for n, t in mod.__dict__.items():
+            if isinstance(t, T["torch"].Tensor):
+                vals["attr:%d:%s" % (mid, n)] = val_of(t)
     return ps, bs, vals
 
 
@@ -667,6 +677,11 @@ def execute(case, want_output=True):
             kw["swap_dest"] = T["TensorDict"]()
         target = env.mods[blk["target"]]
         B["before"] = named_maps(env)
+        if blk["inplace"]:
+            # do two slots this block writes hold tensors on one storage (tied object, or aliases such as params.data)?
+            snap = {(mid, n): r for mid, ps_, bs_, at_ in raw_snapshot(env) for n, r in ps_ + bs_ + at_ if r is not None}
+            st = [snap[s_][4] for s_ in actual_memo_slots({"spec": case["spec"], "blocks": [blk]}) if s_ in snap]
+            B["occ_tied"] = len(set(st)) != len(st)
         try:
             if temp[i]:
                 # `with <temporary>.to_module(target):` -- the source is described (its leaves stay alive in env, the
@@ -684,7 +699,7 @@ def execute(case, want_output=True):
                     cm = src_td.to_module(target, **kw)
                     src_td = None
                     if wr() is not None:
-                        gc.collect()  # a reference cycle, or a genuinely retained object (a locked tensordict caches
+                        gc.collect(1)  # a (young) reference cycle, or a genuinely retained object (a locked tensordict caches
                         #               its detach()): what counts is whether it is alive when the block is left
                     env.live[i] = wr() is not None
                 src_td = None
@@ -918,7 +933,7 @@ def classify_restore_failure(case, res, i, value_level=False):
     d = diff_maps(B["before"], B["after"])
     base = {"call": "to_module as context manager"}
     untouched = "pre_exit" in B and same_maps(B["pre_exit"], B["after"]) and same_vals(B["pre_exit"], B["after"])
-    if value_level and tied_inplace(case, i):
+    if value_level and blk["inplace"] is True and (tied_inplace(case, i) or B.get("occ_tied")):
         # (checked first: with equal supplied values 'first supplied value left behind' and 'nothing undone' look alike)
         return [(dict(base, defect="inplace-tied-values-not-restored", site="_td._set_tensor_dict"), [])]
     if blk["swap_dest"] and B.get("exit") == "TypeError" and untouched and not blk["manual"]:
